@@ -23,6 +23,8 @@
 #include <vf/dense.hpp>
 #include <vf/krylov.hpp>
 #include <omp.h>
+#include <functional>
+#include <cstring>
 
 using vf::J; using vf::Rng; using vf::Case;
 #ifdef C05_COMPLEX
@@ -438,6 +440,67 @@ static void sub_termination() {
     }
 }
 
+//---------------------------------------------------------------------------
+// scale: Krylov iterates do not depend on the units of the system.  For (2^j A, 2^j f, 2^-j P) -- the preconditioned operator is unchanged -- every
+// method must return the same iterate as for (A, f, P), for maxiter = k with tol = 0 and for a tight-tolerance run.  Power-of-two scaling is exact in
+// binary floating point (no overflow / underflow for |j| <= 40 here: squared norms move by 2^(2j), the smallest quantities are ~1e-32 2^-80), every
+// quotient the methods form (alpha, beta, omega, Givens coefficients, Gram-matrix solves, c = M^-1 f in IDR(s)) is a ratio of equally scaled
+// quantities, sqrt of an even power of two is exact, and the stopping thresholds are relative (tol ||f||); the only absolute constants of the solvers
+// are abstol = DBL_MIN and the zero-right-hand-side test ||f|| < 4.4e-16, from which ||f|| 2^-40 ~ 1e-12 stays clear.  Hence BITWISE equality of
+// (iters, reported residual, x) is demanded (left side: the reported value and the tolerance carry 2^-j, see below).  An absolute threshold inside a method (e.g. a "breakdown" guard on <Ap,p>) breaks it.
+//---------------------------------------------------------------------------
+static System scaled_system(const System &s, int j) {
+    System t = s; int n = s.n; R up = std::ldexp((R)1, j), dn = std::ldexp((R)1, -j);
+    t.A = s.A * (L)up; t.P = s.P * (L)dn; t.f = s.f * (L)up; for (int i = 0; i < n; ++i) t.fv[i] = roundS(t.f[i]);
+    std::vector<ptrdiff_t> ptr(1, 0), col; std::vector<S> val;
+    for (int i = 0; i < n; ++i) { for (int k = 0; k < n; ++k) { col.push_back(k); val.push_back(roundS(t.A(i, k))); } ptr.push_back((ptrdiff_t)col.size()); }
+    t.prec.n = n; t.prec.P = t.P; t.prec.napply = 0; t.prec.A = std::make_shared<M>(std::make_tuple((size_t)n, ptr, col, val));
+    // the scaling must be exact (harness-side consistency)
+    for (int i = 0; i < n; ++i) { if (widen(t.fv[i]) != s.f[i] * (L)up) { fprintf(stderr, "c05 scale: inexact scaling of f\n"); exit(3); } for (int k = 0; k < n; ++k) if (widen(roundS(t.A(i, k))) != s.A(i, k) * (L)up) { fprintf(stderr, "c05 scale: inexact scaling of A\n"); exit(3); } }
+    return t;
+}
+static bool same_bits(const S &a, const S &b) { return memcmp(&a, &b, sizeof(S)) == 0 || (!vf::finite_s(a) && !vf::finite_s(b)); }
+static void sub_scale() {
+    long N = vf::tier(40, 600);
+    for (long idx = 0; idx < N; ++idx) {
+        if (!vf::selected("scale", idx)) continue;
+        Rng r(vf::case_seed("scale", idx)); bool spd = idx % 2 == 0; int pk = (int)((idx / 2) % 3) == 1 ? (spd ? 2 : 3) : (int)((idx / 2) % 3);   // identity / approx / approx
+        System s0 = make_system(r, spd, pk, 8, 20, false, 8.0); int n = s0.n; Case c("scale", idx, sysdesc(s0));
+        typedef std::function<Run(const System &, size_t /*maxiter*/, double /*tol*/)> Runner; std::vector<std::pair<std::string, Runner>> methods;
+        if (spd) methods.emplace_back("cg", [n](const System &s, size_t k, double tol) { amgcl::solver::cg<B>::params p; p.maxiter = k; p.tol = tol; amgcl::solver::cg<B> Sv(n, p); return run(Sv, s); });
+        for (int left = 0; left < 2; ++left) {
+            std::string sd = left ? "-left" : "";
+            methods.emplace_back("bicgstab" + sd, [n, left](const System &s, size_t k, double tol) { amgcl::solver::bicgstab<B>::params p; p.maxiter = k; p.tol = tol; p.pside = left ? side::left : side::right; amgcl::solver::bicgstab<B> Sv(n, p); return run(Sv, s); });
+            for (int Lp : {1, 2, 4}) methods.emplace_back("bicgstabl(L=" + std::to_string(Lp) + ")" + sd, [n, left, Lp](const System &s, size_t k, double tol) { amgcl::solver::bicgstabl<B>::params p; p.L = Lp; p.maxiter = k; p.tol = tol; p.pside = left ? side::left : side::right; amgcl::solver::bicgstabl<B> Sv(n, p); return run(Sv, s); });
+            for (int Mr : {3, 30}) methods.emplace_back("gmres(M=" + std::to_string(Mr) + ")" + sd, [n, left, Mr](const System &s, size_t k, double tol) { amgcl::solver::gmres<B>::params p; p.M = Mr; p.maxiter = k; p.tol = tol; p.pside = left ? side::left : side::right; amgcl::solver::gmres<B> Sv(n, p); return run(Sv, s); });
+            methods.emplace_back("lgmres" + sd, [n, left](const System &s, size_t k, double tol) { amgcl::solver::lgmres<B>::params p; p.M = 4; p.K = 2; p.maxiter = k; p.tol = tol; p.pside = left ? side::left : side::right; amgcl::solver::lgmres<B> Sv(n, p); return run(Sv, s); });
+        }
+        methods.emplace_back("fgmres", [n](const System &s, size_t k, double tol) { amgcl::solver::fgmres<B>::params p; p.M = 5; p.maxiter = k; p.tol = tol; amgcl::solver::fgmres<B> Sv(n, p); return run(Sv, s); });
+        for (int sm = 0; sm < 2; ++sm) { unsigned sv = (unsigned)(1 + (idx + 3 * sm) % 8);
+            methods.emplace_back(std::string("idrs") + (sm ? "-smoothing" : ""), [n, sv, sm](const System &s, size_t k, double tol) { amgcl::solver::idrs<B>::params p; p.s = sv; p.smoothing = sm; p.maxiter = (unsigned)k; p.tol = tol; amgcl::solver::idrs<B> Sv(n, p); return run(Sv, s); }); }
+        methods.emplace_back("richardson", [n](const System &s, size_t k, double tol) { amgcl::solver::richardson<B>::params p; p.damping = 0.8; p.maxiter = k; p.tol = tol; amgcl::solver::richardson<B> Sv(n, p); return run(Sv, s); });
+        // budgets: tol = 0 with k in {1, 3, n/2, n} and a tight-tolerance run (1e-13, 3 n iterations)
+        std::vector<std::pair<size_t, double>> budgets = {{1, 0.0}, {3, 0.0}, {(size_t)n / 2, 0.0}, {(size_t)n, 0.0}, {(size_t)3 * n, 1e-13}};
+        std::vector<System> scaled; static const int JS[5] = {-40, -30, -20, 20, 30}; for (int j : JS) scaled.push_back(scaled_system(s0, j));
+        for (auto &m : methods) for (auto &bt : budgets) {
+            Run base = m.second(s0, bt.first, bt.second);
+            for (int q = 0; q < 5; ++q) {
+                // left preconditioning reports || P (f - A x) || / ||f|| by definition: P r is unchanged, ||f|| is scaled, so the reported value (and the
+                // relative tolerance that is compared with it) carries the factor 2^-j exactly; iterates and iteration counts do not
+                bool isleft = m.first.find("-left") != std::string::npos; double tolq = isleft ? std::ldexp(bt.second, -JS[q]) : bt.second; double expect = isleft ? std::ldexp(base.res, -JS[q]) : base.res;
+                Run o = m.second(scaled[q], bt.first, tolq); std::string why;
+                if (o.threw != base.threw) why = o.threw ? "scaled run threw: " + o.what : "unscaled run threw: " + base.what;
+                else if (!o.threw) { if (o.iters != base.iters) why = "iterations " + std::to_string(o.iters) + " vs " + std::to_string(base.iters);
+                    else if (memcmp(&o.res, &expect, sizeof(double)) && !(std::isnan(o.res) && std::isnan(expect))) { char b[96]; snprintf(b, sizeof b, "reported residual %.17g vs %.17g", o.res, expect); why = b; }
+                    else for (int i = 0; i < n; ++i) if (!same_bits(o.x[i], base.x[i])) { char b[160]; snprintf(b, sizeof b, "x[%d] = %.17g vs %.17g", i, std::abs(o.x[i]), std::abs(base.x[i])); why = b; break; } }
+                c.check(why.empty(), m.first + ":iterate-depends-on-scaling", "iterate for (2^j A, 2^j f, 2^-j P) differs from the iterate for (A, f, P): " + why,
+                        J().n("j", JS[q]).n("maxiter", bt.first).n("tol", bt.second).n("iters_unscaled", base.iters).n("res_unscaled", base.res));
+                vf::obs_sum("method_k_pairs"); c.nontrivial();
+            }
+        }
+    }
+}
+
 int main(int argc, char **argv) {
     vf::init(argc, argv);
     vf::obs_add("value_types", VT);
@@ -450,5 +513,6 @@ int main(int argc, char **argv) {
     if (vf::sub_enabled("idrs")) sub_idrs();
     if (vf::sub_enabled("richardson")) sub_richardson();
     if (vf::sub_enabled("termination")) sub_termination();
+    if (vf::sub_enabled("scale")) sub_scale();
     return vf::finish();
 }
